@@ -1,6 +1,8 @@
 package main
 
 import (
+	"google.golang.org/protobuf/runtime/protoiface"
+	"bytes"
 	"fmt"
 
 	vh "google.golang.org/protobuf/internal/zz_verif_vh"
@@ -32,6 +34,17 @@ func mutateSmall(c *C, m protoreflect.Message, depth int) string {
 		}
 		return true
 	})
+	if len(subs) > 0 && depth < 4 && c.Rand.Intn(8) == 0 {
+		// empty a child completely while it stays present (its size drops to 0)
+		sub := subs[c.Rand.Intn(len(subs))]
+		var set []protoreflect.FieldDescriptor
+		sub.Range(func(fd protoreflect.FieldDescriptor, _ protoreflect.Value) bool { set = append(set, fd); return true })
+		for _, fd := range set {
+			sub.Clear(fd)
+		}
+		sub.SetUnknown(nil)
+		return fmt.Sprintf("empty-child@%d", depth)
+	}
 	if len(subs) > 0 && depth < 4 && c.Rand.Intn(3) != 0 {
 		return mutateSmall(c, subs[c.Rand.Intn(len(subs))], depth+1)
 	}
@@ -105,7 +118,34 @@ func cacheHistory(c *C, r *Root) {
 	n := 8 + c.Rand.Intn(23)
 	var last []byte
 	for step := 0; step < n; step++ {
-		switch c.Rand.Intn(8) {
+		switch c.Rand.Intn(10) {
+		case 8, 9: // MarshalAppend / MarshalState into a buffer with spare capacity (the documented buf[:0] reuse loop)
+			det := c.Rand.Intn(2) == 0
+			prefix := []byte("pfx")[:c.Rand.Intn(4)]
+			buf := append(make([]byte, 0, len(prefix)+c.Rand.Intn(4096)), prefix...)
+			viaState := c.Rand.Intn(2) == 0
+			trace = append(trace, fmt.Sprintf("marshalappend det=%v cap=%d state=%v", det, cap(buf), viaState))
+			in["ops"] = trace
+			var out []byte
+			var err error
+			o := proto.MarshalOptions{AllowPartial: true, Deterministic: det}
+			if viaState {
+				var res protoiface.MarshalOutput
+				res, err = o.MarshalState(protoiface.MarshalInput{Message: m, Buf: buf})
+				out = res.Buf
+			} else {
+				out, err = o.MarshalAppend(buf, m.Interface())
+			}
+			if !c.Check(err == nil, "MarshalAppend into a buffer with spare capacity fails after a mutation history: "+fmt.Sprint(err), in, "") {
+				return
+			}
+			if !c.Check(bytes.HasPrefix(out, prefix), "MarshalAppend does not keep the prefix", in, "") {
+				return
+			}
+			last = out[len(prefix):]
+			if !checkCurrent(c, r, m, last, in) {
+				return
+			}
 		case 0, 1, 2:
 			trace = append(trace, mutateSmall(c, m, 0))
 			muts++
